@@ -102,7 +102,28 @@ def cutoffArg : Arg → Option Nat
   | .nat c => if c < USIZE then some c else none
   | _ => none
 
+/-- level digests of the *virtual constant tree* (all leafs equal `d`): `[d_0, …, d_h]`, `d_0 = d`, `d_{k+1} = H d_k d_k` -/
+def constLevels (d : Dg) : Nat → List Dg
+  | 0 => [d]
+  | h+1 => let ls := constLevels d h; ls ++ [Hh (ls.getLastD d) (ls.getLastD d)]
+
+/-- the honest inclusion proof of the virtual constant tree of height `h`, computed by index arithmetic only
+    (`authIdx` walks the paths of the claimed leafs; node `k` lies `h - log2 k` levels above the leafs) -/
+def vproofReply (h : Nat) (d : Dg) (is : List Nat) : String :=
+  if h > 62 then "err" else
+  let levels := constLevels d h
+  match authIdx (2^h) is with
+  | .ok ks =>
+    let auth := ks.map fun k => (levels[h - Nat.log2 k]?).getD []
+    let p : Proof Dg := ⟨h, is.map (fun i => (i, d)), auth⟩
+    s!"ok:{verifyReply p (levels.getLastD d)}|{pathsReply p}"
+  | .err _ => "err"
+  | .panic => "panic"
+
 def mtb : Handler
+  | "vproof", [.nat h, d, is] => do
+    let d ← Arg.digest? d; let is ← is.natList?
+    pure (vproofReply h d is)
   | "build", [ds] => do
     let ds ← Arg.digests? ds
     pure (match build ds with
